@@ -42,6 +42,8 @@ def main():
         fut_case = rng.random() < 0.3
         ops = _c02mod.PAST_OPS + (["evT", "alwT", "untilT", "next"] if fut_case else [])
         g = Gen(rng, vars_=rng.choice([("x",), ("x", "y")]), S=S, ops=ops, ivs=_c02mod.IVS + [(0, 5)])
+        if not fut_case and rng.random() < 0.3:
+            g.tterm = 0.25            # stateful operators inside the operands of a comparison
         import c03 as _c03
         for _ in range(30):
             phi = g.formula(rng.choice([1, 2, 2, 3]))
